@@ -47,6 +47,18 @@ enum Kind {
 
 fn text(rng: &mut Rng, locale: &str) -> String {
     let t = rng.pick(TEXTS);
+    // size knob: now and then a text around the 8 KiB capacity of the export's BufWriter, so that escapes and
+    // multibyte characters land on either side of a flush boundary
+    if rng.chance(1, 150) {
+        let target = 8150 + rng.below(120);
+        let mut s = format!("long ({locale}) ");
+        while s.len() < target {
+            s.push_str(t);
+            s.push(' ');
+        }
+        s.push_str(*rng.pick(&["\"", "\\", "\u{a0}", "😀", "\n", "\u{2028}", "é", "\u{7f}", "end"]));
+        return s;
+    }
     if rng.chance(1, 3) {
         t.to_string() // same literal text across locales (exercises string dedup / sharing)
     } else {
@@ -142,7 +154,11 @@ fn value_for(kind: &Kind, rng: &mut Rng, locale: &str, plain_keys: &[String], ou
 }
 
 fn gen_kinds(rng: &mut Rng, depth: usize, prefix: &str, plain_paths: &mut Vec<String>, ns: Option<&str>) -> Vec<(String, Kind)> {
-    let n = 2 + rng.below(if depth == 0 { 8 } else { 4 });
+    let mut n = 2 + rng.below(if depth == 0 { 8 } else { 4 });
+    // size knob: now and then a wide unit, so that string indices pass 255 / 256
+    if depth == 0 && rng.chance(1, 25) {
+        n = 150 + rng.below(140);
+    }
     let mut out = vec![];
     for i in 0..n {
         let key = format!("k{depth}_{i}");
